@@ -20,6 +20,12 @@
 //
 // A supplementary axis enumerates every exported ExtKeyUsage constant as the
 // only extended key usage of the default template.
+//
+// Reuse histories (reuse.go): the same template/parent objects go through
+// several CreateCertificate calls and are edited in place in between; the last
+// certificate must report the template as it is then, and its TBSCertificate
+// must equal the one issued from freshly built objects. An input immutability
+// probe (snap.go) runs around every creation call.
 package main
 
 import (
@@ -90,6 +96,10 @@ type scenario struct {
 	subjKind int
 	signKind int
 	issuer   int
+	// the unparsed parent template handed over when issuer == issByStruct: private to the scenario, so
+	// that a history can rename it between calls and so that nothing the creation call might write into
+	// it is shared between goroutines
+	parentStruct *x509.Certificate
 }
 
 func (s *scenario) self() bool { return s.issuer == issSelf }
@@ -221,20 +231,20 @@ func buildFields() []field {
 	add := func(name string, alts ...alt) { F = append(F, field{name, alts}) }
 	def := alt{label: "default"}
 
-	add("SerialNumber", alt{label: "1"},
+	add("SerialNumber", alt{"1", func(s *scenario) { s.t.SerialNumber = big.NewInt(1) }},
 		alt{"2^64", func(s *scenario) { s.t.SerialNumber = new(big.Int).Lsh(big.NewInt(1), 64) }},
 		alt{"2^159-1", func(s *scenario) {
 			s.t.SerialNumber = new(big.Int).Sub(new(big.Int).Lsh(big.NewInt(1), 159), big.NewInt(1))
 		}})
 
-	add("Subject", alt{label: "CN=leaf.example"},
+	add("Subject", alt{"CN=leaf.example", func(s *scenario) { s.t.Subject = nameShape(0, "leaf.example") }},
 		alt{"shape1-multivalued", func(s *scenario) { s.t.Subject = nameShape(1, "") }},
 		alt{"shape2-extra-names", func(s *scenario) { s.t.Subject = nameShape(2, "") }},
 		alt{"shape3-empty", func(s *scenario) { s.t.Subject = nameShape(3, "") }})
 
 	tl := []string{"T0-24h", "1950-01-01", "2049-12-31T23:59:59", "2050-01-01", "9999-12-31T23:59:59", "nanoseconds", "non-UTC-zone"}
-	nb := []alt{{label: tl[0]}}
-	na := []alt{{label: "T0+24h"}}
+	nb := []alt{{tl[0], func(s *scenario) { s.t.NotBefore = timeAlt(0, false) }}}
+	na := []alt{{"T0+24h", func(s *scenario) { s.t.NotAfter = timeAlt(0, true) }}}
 	for i := 1; i <= 6; i++ {
 		i := i
 		nb = append(nb, alt{tl[i], func(s *scenario) { s.t.NotBefore = timeAlt(i, false) }})
@@ -243,7 +253,7 @@ func buildFields() []field {
 	add("NotBefore", nb...)
 	add("NotAfter", na...)
 
-	ku := []alt{{label: "0"}}
+	ku := []alt{{"0", func(s *scenario) { s.t.KeyUsage = 0 }}}
 	for b := 0; b <= 8; b++ {
 		b := b
 		ku = append(ku, alt{fmt.Sprintf("bit%d", b), func(s *scenario) { s.t.KeyUsage = x509.KeyUsage(1 << uint(b)) }})
@@ -251,18 +261,20 @@ func buildFields() []field {
 	ku = append(ku, alt{"all-9-bits", func(s *scenario) { s.t.KeyUsage = x509.KeyUsage(0x1ff) }})
 	add("KeyUsage", ku...)
 
-	add("ExtKeyUsage", alt{label: "nil"},
+	add("ExtKeyUsage", alt{"nil", func(s *scenario) { s.t.ExtKeyUsage = nil }},
 		alt{"[ServerAuth]", func(s *scenario) { s.t.ExtKeyUsage = []x509.ExtKeyUsage{x509.ExtKeyUsageServerAuth} }},
 		alt{"[Any,ClientAuth]", func(s *scenario) {
 			s.t.ExtKeyUsage = []x509.ExtKeyUsage{x509.ExtKeyUsageAny, x509.ExtKeyUsageClientAuth}
 		}})
-	add("UnknownExtKeyUsage", alt{label: "nil"},
+	add("UnknownExtKeyUsage", alt{"nil", func(s *scenario) { s.t.UnknownExtKeyUsage = nil }},
 		alt{"[1.3.6.1.4.1.99999.7]", func(s *scenario) {
 			s.t.UnknownExtKeyUsage = []zasn1.ObjectIdentifier{oid(1, 3, 6, 1, 4, 1, 99999, 7)}
 		}})
 
 	// BasicConstraintsValid × IsCA × MaxPathLen{-1,0,1,5} × MaxPathLenZero: full product, default (true,false,0,false)
-	bc := []alt{{label: "valid=true,ca=false,len=0,zero=false"}}
+	bc := []alt{{"valid=true,ca=false,len=0,zero=false", func(s *scenario) {
+		s.t.BasicConstraintsValid, s.t.IsCA, s.t.MaxPathLen, s.t.MaxPathLenZero = true, false, 0, false
+	}}}
 	for _, valid := range []bool{true, false} {
 		for _, ca := range []bool{false, true} {
 			for _, l := range []int{0, -1, 1, 5} {
@@ -280,21 +292,21 @@ func buildFields() []field {
 	}
 	add("BasicConstraints", bc...)
 
-	add("SubjectKeyId", alt{label: "nil"},
+	add("SubjectKeyId", alt{"nil", func(s *scenario) { s.t.SubjectKeyId = nil }},
 		alt{"1-byte", func(s *scenario) { s.t.SubjectKeyId = []byte{0x5a} }},
 		alt{"20-bytes", func(s *scenario) { s.t.SubjectKeyId = bytesN(20, 0x10) }})
-	add("AuthorityKeyId", alt{label: "nil"},
+	add("AuthorityKeyId", alt{"nil", func(s *scenario) { s.t.AuthorityKeyId = nil }},
 		alt{"1-byte", func(s *scenario) { s.t.AuthorityKeyId = []byte{0xa5} }},
 		alt{"20-bytes", func(s *scenario) { s.t.AuthorityKeyId = bytesN(20, 0x80) }})
 
-	add("DNSNames", alt{label: "nil"},
+	add("DNSNames", alt{"nil", func(s *scenario) { s.t.DNSNames = nil }},
 		alt{"1", func(s *scenario) { s.t.DNSNames = strs("leaf.example") }},
 		alt{"3-incl-wildcard", func(s *scenario) { s.t.DNSNames = strs("a.example", "*.b.example", "xn--bcher-kva.example") }},
 		alt{"non-IA5(out-of-domain)", func(s *scenario) { s.t.DNSNames = strs("bücher.example") }})
-	add("EmailAddresses", alt{label: "nil"},
+	add("EmailAddresses", alt{"nil", func(s *scenario) { s.t.EmailAddresses = nil }},
 		alt{"1", func(s *scenario) { s.t.EmailAddresses = strs("user@example.com") }},
 		alt{"2", func(s *scenario) { s.t.EmailAddresses = strs("a@b.c", "x.y@sub.example.org") }})
-	add("IPAddresses", alt{label: "nil"},
+	add("IPAddresses", alt{"nil", func(s *scenario) { s.t.IPAddresses = nil }},
 		alt{"v4-4-byte", func(s *scenario) { s.t.IPAddresses = []net.IP{ipb(192, 0, 2, 1)} }},
 		alt{"v4-16-byte-form", func(s *scenario) { s.t.IPAddresses = []net.IP{v4in16(192, 0, 2, 1)} }},
 		alt{"v6", func(s *scenario) { s.t.IPAddresses = []net.IP{v6("20010db8000000000000000000000001")} }},
@@ -302,26 +314,29 @@ func buildFields() []field {
 			s.t.IPAddresses = []net.IP{ipb(10, 0, 0, 1), v4in16(198, 51, 100, 7), v6("fe800000000000000000000000000001")}
 		}})
 
-	add("OCSPServer", alt{label: "nil"},
+	add("OCSPServer", alt{"nil", func(s *scenario) { s.t.OCSPServer = nil }},
 		alt{"1", func(s *scenario) { s.t.OCSPServer = strs("http://ocsp.example/") }},
 		alt{"2", func(s *scenario) { s.t.OCSPServer = strs("http://ocsp1.example/", "http://ocsp2.example/q?x=1") }})
-	add("IssuingCertificateURL", alt{label: "nil"},
+	add("IssuingCertificateURL", alt{"nil", func(s *scenario) { s.t.IssuingCertificateURL = nil }},
 		alt{"1", func(s *scenario) { s.t.IssuingCertificateURL = strs("http://ca.example/ca.crt") }},
 		alt{"2", func(s *scenario) {
 			s.t.IssuingCertificateURL = strs("http://ca.example/a.crt", "ldap://ca.example/cn=ca")
 		}})
-	add("CRLDistributionPoints", alt{label: "nil"},
+	add("CRLDistributionPoints", alt{"nil", func(s *scenario) { s.t.CRLDistributionPoints = nil }},
 		alt{"1", func(s *scenario) { s.t.CRLDistributionPoints = strs("http://crl.example/ca.crl") }},
 		alt{"2", func(s *scenario) {
 			s.t.CRLDistributionPoints = strs("http://crl.example/a.crl", "http://crl2.example/b.crl")
 		}})
-	add("PolicyIdentifiers", alt{label: "nil"},
+	add("PolicyIdentifiers", alt{"nil", func(s *scenario) { s.t.PolicyIdentifiers = nil }},
 		alt{"1", func(s *scenario) { s.t.PolicyIdentifiers = []zasn1.ObjectIdentifier{oid(2, 23, 140, 1, 2, 1)} }},
 		alt{"2", func(s *scenario) {
 			s.t.PolicyIdentifiers = []zasn1.ObjectIdentifier{oid(1, 3, 6, 1, 4, 1, 99999, 1, 2), oid(2, 999, 3)}
 		}})
 
-	add("NameConstraints", alt{label: "none"},
+	add("NameConstraints", alt{"none", func(s *scenario) {
+		s.t.PermittedDNSNames, s.t.ExcludedDNSNames, s.t.PermittedEmailAddresses, s.t.ExcludedEmailAddresses = nil, nil, nil, nil
+		s.t.PermittedDirectoryNames, s.t.ExcludedDirectoryNames, s.t.PermittedIPAddresses, s.t.ExcludedIPAddresses = nil, nil, nil, nil
+	}},
 		alt{"dns-permitted", func(s *scenario) { s.t.PermittedDNSNames = gss("example.com") }},
 		alt{"dns-excluded", func(s *scenario) { s.t.ExcludedDNSNames = gss(".bad.example", "other.test") }},
 		alt{"email", func(s *scenario) {
@@ -340,13 +355,23 @@ func buildFields() []field {
 				IP:   v6("20010db8000000000000000000000000"),
 				Mask: net.IPMask(v6("ffffffff000000000000000000000000"))}}}
 		}},
+		// the addresses of the two ranges are slices of ONE packed table of IPv4 addresses (tab[4*i:4*i+4],
+		// capacity reaching to the end of the table), the masks likewise: ordinary Go values, nothing in
+		// the documentation asks for exact-capacity slices. The expectation is taken from a separate copy.
+		alt{"2-ipv4-ranges-sliced-from-one-packed-table", func(s *scenario) {
+			tab := []byte{10, 0, 0, 0, 192, 168, 0, 0}
+			msk := []byte{255, 0, 0, 0, 255, 255, 0, 0}
+			s.t.PermittedIPAddresses = []x509.GeneralSubtreeIP{
+				{Data: net.IPNet{IP: net.IP(tab[0:4]), Mask: net.IPMask(msk[0:4])}},
+				{Data: net.IPNet{IP: net.IP(tab[4:8]), Mask: net.IPMask(msk[4:8])}}}
+		}},
 		alt{"ipv4-16-byte-ip-with-4-byte-mask(out-of-domain)", func(s *scenario) {
 			s.t.PermittedIPAddresses = []x509.GeneralSubtreeIP{{Data: net.IPNet{IP: v4in16(10, 0, 0, 0), Mask: net.IPMask(ipb(255, 0, 0, 0))}}}
 		}})
-	add("NameConstraintsCritical", alt{label: "false"},
+	add("NameConstraintsCritical", alt{"false", func(s *scenario) { s.t.NameConstraintsCritical = false }},
 		alt{"true", func(s *scenario) { s.t.NameConstraintsCritical = true }})
 
-	ex := []alt{{label: "none"},
+	ex := []alt{{"none", func(s *scenario) { s.t.ExtraExtensions = nil }},
 		{"unknown-oid", func(s *scenario) {
 			s.t.ExtraExtensions = []pkix.Extension{{Id: unknownExtOID, Value: []byte{0x05, 0x00}}}
 		}}}
@@ -359,15 +384,15 @@ func buildFields() []field {
 	}
 	add("ExtraExtensions", ex...)
 
-	sa := []alt{{label: "0"}}
+	sa := []alt{{"0", func(s *scenario) { s.t.SignatureAlgorithm = 0 }}}
 	for a := x509.MD2WithRSA; a <= x509.Ed25519Sig; a++ {
 		a := a
 		sa = append(sa, alt{a.String(), func(s *scenario) { s.t.SignatureAlgorithm = a }})
 	}
 	add("SignatureAlgorithm", sa...)
 
-	sk := []alt{{label: kinds[0].name}}
-	gk := []alt{{label: kinds[0].name}}
+	sk := []alt{{kinds[0].name, func(s *scenario) { s.subjKind = 0 }}}
+	gk := []alt{{kinds[0].name, func(s *scenario) { s.signKind = 0 }}}
 	for k := 1; k < len(kinds); k++ {
 		k := k
 		sk = append(sk, alt{kinds[k].name, func(s *scenario) { s.subjKind = k }})
@@ -376,7 +401,7 @@ func buildFields() []field {
 	add("SubjectKey", sk...)
 	add("SignerKey", gk...)
 
-	add("Issuer", alt{label: "issued-by-parsed-CA"},
+	add("Issuer", alt{"issued-by-parsed-CA", func(s *scenario) { s.issuer = issByP0 }},
 		alt{"self-signed", func(s *scenario) { s.issuer = issSelf }},
 		alt{"issued-by-CA-name-shape1", func(s *scenario) { s.issuer = issByP1 }},
 		alt{"issued-by-CA-name-shape2", func(s *scenario) { s.issuer = issByP2 }},
@@ -398,16 +423,46 @@ func build(a assign) *scenario {
 		NotBefore:             t0NotBefore,
 		NotAfter:              t0NotAfter,
 		BasicConstraintsValid: true,
-	}}
+	}, parentStruct: newParentStruct()}
 	for _, fa := range a {
-		if ap := fields[fa[0]].alts[fa[1]].apply; ap != nil {
-			ap(s)
-		}
+		s.set(fa[0], fa[1])
 	}
+	return s
+}
+
+// set gives field f the alternative a, in place, on the scenario's existing objects.
+func (s *scenario) set(f, a int) {
+	if ap := fields[f].alts[a].apply; ap != nil {
+		ap(s)
+	}
+	s.normalise()
+}
+
+func (s *scenario) normalise() {
 	if s.self() {
 		s.subjKind = s.signKind // a self-signed certificate certifies the signer's own key
 	}
-	return s
+}
+
+// defaultCAName is the subject of the shape-0 CA fixtures and of the unparsed parent template.
+func defaultCAName() pkix.Name {
+	return pkix.Name{CommonName: "Verif C04 CA", Organization: strs("Verif")}
+}
+
+// newParentStruct is a CA template as a caller would hold it before (or instead of) parsing the
+// issued CA certificate: only the documented inputs of CreateCertificate's parent are set.
+func newParentStruct() *x509.Certificate {
+	return &x509.Certificate{
+		SerialNumber:          big.NewInt(1000),
+		Subject:               defaultCAName(),
+		NotBefore:             fx.T0.Add(-48 * time.Hour),
+		NotAfter:              fx.T0.Add(48 * time.Hour),
+		BasicConstraintsValid: true,
+		IsCA:                  true,
+		MaxPathLen:            -1,
+		KeyUsage:              x509.KeyUsageCertSign | x509.KeyUsageCRLSign,
+		SubjectKeyId:          append([]byte(nil), parentSKID...),
+	}
 }
 
 func describe(a assign) map[string]string {
@@ -459,7 +514,7 @@ func makeParents() error {
 		for shape := 0; shape < 4; shape++ {
 			var n pkix.Name
 			if shape == 0 {
-				n = pkix.Name{CommonName: "Verif C04 CA", Organization: strs("Verif")}
+				n = defaultCAName()
 			} else {
 				n = nameShape(shape, "")
 			}
@@ -491,8 +546,10 @@ func makeParents() error {
 // ------------------------------------------------------------------ driver
 
 type witness struct {
-	Probe  string            `json:"probe,omitempty"` // "" = template enumeration, "eku" = ExtKeyUsage constant probe
-	Assign [][2]int          `json:"assign,omitempty"`
+	Probe  string            `json:"probe,omitempty"` // "" = template enumeration, "eku" = ExtKeyUsage constant probe, "reuse" = reuse history
+	Assign [][2]int          `json:"assign,omitempty"` // reuse: the base template of the history
+	Edits  []int             `json:"edits,omitempty"`  // reuse: indices into the edit alphabet, applied in place between the calls
+	EditL  []string          `json:"edit_labels,omitempty"`
 	EKU    *int              `json:"eku,omitempty"` // probe "eku": the ExtKeyUsage constant's integer value
 	Fields map[string]string `json:"non_default_fields,omitempty"`
 	Detail string            `json:"detail"`
@@ -502,8 +559,11 @@ type witness struct {
 type result struct {
 	classes []string // outcome classes
 	viol    []violation
-	created bool // in-domain, created and parsed by zcrypto: a non-trivial case
-	ops     int  // operations executed on the real code
+	created bool     // in-domain, created and parsed by zcrypto: a non-trivial case
+	ops     int      // operations executed on the real code
+	der     []byte   // the certificate, when one was created inside the domain
+	changed bool     // immutability probe, digest tier: a creation call changed its inputs
+	mutated []string // immutability probe, path tier: the input paths the creation call changed
 }
 
 type violation struct {
@@ -516,6 +576,7 @@ func main() {
 		loadKeys()
 		loadStdPubs()
 		fields = buildFields()
+		buildReuseEdits()
 		if err := makeParents(); err != nil {
 			// cannot even mint the CA fixtures: that is a failure of issuance itself
 			c.Violation("fixture CA certificate cannot be issued/parsed", witness{Detail: err.Error()})
@@ -539,7 +600,24 @@ func main() {
 			}
 			var r *result
 			eku := 0
-			if w.Probe == "eku" {
+			if w.Probe == "reuse" {
+				for _, e := range w.Edits {
+					if e < 0 || e >= len(reuseEdits) {
+						c.Broken("witness does not fit the edit alphabet")
+					}
+				}
+				for _, fa := range w.Assign {
+					if fa[0] < 0 || fa[0] >= len(fields) || fa[1] < 0 || fa[1] >= len(fields[fa[0]].alts) {
+						c.Broken("witness does not fit the field table")
+					}
+				}
+				h := rhistory{w.Assign, w.Edits}
+				r = runHistory(h, true)
+				for _, v := range r.viol {
+					c.Violation(v.sig, witness{Probe: "reuse", Assign: w.Assign, Fields: describe(w.Assign), Edits: w.Edits, EditL: h.labels(), Detail: v.detail})
+				}
+				r.viol = nil
+			} else if w.Probe == "eku" {
 				if w.EKU != nil {
 					eku = *w.EKU
 				}
@@ -570,12 +648,14 @@ func main() {
 			nAlt += len(f.alts) - 1
 			perField[f.name] = len(f.alts) - 1
 		}
-		c.Rule(fmt.Sprintf("every certificate template with at most %d of %d fields set to a non-default alternative (%d alternatives in total, full list in coverage.alternatives_per_field) is created by the real CreateCertificate and parsed back; PLUS, independent of that bound, the full product signer key kind {Ed25519, RSA-1024, RSA-2048, RSA-3072, P-224, P-256, P-384, P-521} x requested SignatureAlgorithm {0, every constant MD2WithRSA..Ed25519Sig} x {issued by the parsed CA to each of the 8 subject key kinds | self-signed CA certificate} on the default template (every RSA-PSS variant must really be issued by the RSA-2048 and RSA-3072 signers, issued and self-signed); a case is distinct/non-trivial when the template is inside the documented domain and the certificate was created and parsed by zcrypto; plus every exported ExtKeyUsage constant as the only EKU of the default template", d, len(fields), nAlt))
+		c.Rule(fmt.Sprintf("every certificate template with at most %d of %d fields set to a non-default alternative (%d alternatives in total, full list in coverage.alternatives_per_field) is created by the real CreateCertificate and parsed back; PLUS, independent of that bound, the full product signer key kind {Ed25519, RSA-1024, RSA-2048, RSA-3072, P-224, P-256, P-384, P-521} x requested SignatureAlgorithm {0, every constant MD2WithRSA..Ed25519Sig} x {issued by the parsed CA to each of the 8 subject key kinds | self-signed CA certificate} on the default template (every RSA-PSS variant must really be issued by the RSA-2048 and RSA-3072 signers, issued and self-signed); a case is distinct/non-trivial when the template is inside the documented domain and the certificate was created and parsed by zcrypto; plus every exported ExtKeyUsage constant as the only EKU of the default template; PLUS reuse histories: every base template with at most 1 non-default field x every edit of the alphabet {field := alternative (every field, every alternative incl. back to the default), no edit, 7 edits inside existing values (Subject.CommonName, Subject.Organization append, SerialNumber.SetInt64, DNSNames append, ExtraExtensions append, IsCA toggle, SubjectKeyId bytes), 4 edits of an unparsed parent template (rename x3, SubjectKeyId)} applied IN PLACE to the same template/parent objects between two CreateCertificate calls (thorough: also three calls, first edit from the covering sub-alphabet): the last certificate is judged by the same expectation function applied to freshly built objects holding the edited values, and its TBSCertificate must equal the one issued from such fresh objects; every creation call is bracketed by a deep snapshot of template and parent (changed input paths are outcome classes 'probe: ...')", d, len(fields), nAlt))
 		c.Assume("expectation function transcribes the documentation of CreateCertificate, Certificate, pkix.Name and RFC 5280 (oracle.go), not buildExtensions",
 			"Go standard library crypto/x509, encoding/asn1, crypto/rsa, crypto/ecdsa, crypto/ed25519 are correct (used as independent parser and verifier)",
 			"fixture keys of internal/fx; CA fixtures are minted with the code under test and verified like every other certificate",
 			"AuthorityKeyId: the property statement says the template's, the doc comment of CreateCertificate says the parent's SubjectKeyId when issued: both are accepted and counted (outcomes akid=...)",
-			"ordering inside list-valued fields and inside a multi-valued RDN is not part of the statement: lists are compared as multisets")
+			"ordering inside list-valued fields and inside a multi-valued RDN is not part of the statement: lists are compared as multisets",
+			"reuse histories: 'reports the template's fields' is read as the template's fields AT THE TIME OF THE CALL; a creation call that changes its inputs is not a violation by itself (outcome class), only its effect on a later call is",
+			"templates may hold slices that share a backing array (two IP ranges sliced from one packed address table): nothing in the documentation asks for exact-capacity slices")
 		c.Set("deviation_bound_d", d)
 		c.Set("fields", len(fields))
 		c.Set("alternatives_total", nAlt)
@@ -583,6 +663,17 @@ func main() {
 		c.Set("templates_enumerated", len(all))
 		c.Set("domain_predicate", domainText)
 
+		var mutMu sync.Mutex
+		mutatedPaths := map[string]bool{}
+		noteMutated := func(r *result) {
+			if len(r.mutated) > 0 {
+				mutMu.Lock()
+				for _, p := range r.mutated {
+					mutatedPaths[p] = true
+				}
+				mutMu.Unlock()
+			}
+		}
 		W := c.Workers()
 		hists := make([]ev.Hist, W)
 		for i := range hists {
@@ -592,6 +683,11 @@ func main() {
 			a := all[i]
 			s := build(a)
 			r := evaluate(s)
+			if r.changed { // digest changed: the same case again, with the path-naming snapshots
+				s = build(a)
+				r = evaluateAs(s, s, true)
+			}
+			noteMutated(r)
 			for _, cl := range r.classes {
 				hists[w][cl]++
 			}
@@ -679,6 +775,11 @@ func main() {
 			a := prod[i]
 			s := build(a)
 			r := evaluate(s)
+			if r.changed {
+				s = build(a)
+				r = evaluateAs(s, s, true)
+			}
+			noteMutated(r)
 			for _, cl := range r.classes {
 				hists[w]["key x algorithm x issuer product: "+cl]++
 			}
@@ -714,6 +815,9 @@ func main() {
 			}
 		}
 		c.Merge(hp)
+		for i := range hists {
+			hists[i] = ev.Hist{}
+		}
 		if !doneP {
 			c.Incomplete("budget hit during the key x algorithm x issuer product")
 		}
@@ -770,6 +874,62 @@ func main() {
 			report(nil, r, "eku", v)
 		}
 		c.Set("eku_constants_failing", ekuFailing)
+
+		// reuse histories (reuse.go): the same template/parent objects through several creation calls
+		bases := enumerate(1)
+		hs := enumerateHistories(bases, 2)
+		nLen2 := len(hs)
+		if !c.Quick() {
+			hs = append(hs, enumerateHistories(bases, 3)...)
+		}
+		nCover := 0
+		var editLabels []string
+		for _, e := range reuseEdits {
+			if e.covering {
+				nCover++
+			}
+			if e.field < 0 {
+				editLabels = append(editLabels, e.label)
+			}
+		}
+		c.Set("reuse_histories", map[string]any{"bases": len(bases), "edit_alphabet": len(reuseEdits), "covering_sub_alphabet": nCover,
+			"edits_beyond_the_field_table": editLabels, "length_2": nLen2, "length_3": len(hs) - nLen2})
+		doneH := c.Parallel(len(hs), func(w, i int) {
+			h := hs[i]
+			r := runHistory(h, false)
+			if r.changed {
+				r = runHistory(h, true)
+			}
+			for _, cl := range r.classes {
+				hists[w][cl]++
+			}
+			c.States.Add(1)
+			c.Evaluations.Add(1)
+			c.Transitions.Add(int64(r.ops))
+			if r.created {
+				c.Distinct.Add(1)
+				if len(r.viol) == 0 {
+					c.Traces.Add(1)
+				}
+			}
+			noteMutated(r)
+			for _, v := range r.viol {
+				c.Violation(v.sig, witness{Probe: "reuse", Assign: h.base, Fields: describe(h.base), Edits: h.edits, EditL: h.labels(), Detail: v.detail})
+			}
+		})
+		for i, h := range hists {
+			c.Merge(h)
+			hists[i] = ev.Hist{}
+		}
+		if !doneH {
+			c.Incomplete("budget hit during the reuse histories")
+		}
+		var mp []string
+		for p := range mutatedPaths {
+			mp = append(mp, p)
+		}
+		sort.Strings(mp)
+		c.Set("inputs_changed_by_CreateCertificate", mp)
 	})
 }
 
